@@ -30,6 +30,11 @@ func famKnown(c *Ctx) {
 	if sel == "" || sel == "C43" {
 		knownTimeHelpers(c, c.N)
 	}
+	if sel == "" || sel == "C23" {
+		knownDurationJSON(c, c.N/2)
+		knownFieldMaskJSON(c, c.N/4)
+		// knownTimestampJSON(c, c.N/4)
+	}
 	if sel == "" || sel == "C44" {
 		knownFieldMaskAlgebra(c, c.N/2)
 		knownFieldMaskValidity(c, c.N/2)
